@@ -59,7 +59,7 @@ def preamble(res):
 def classify(info):
     return None
 
-def one_history(run, case, name, sn, U, Ug, m, j, later, rng):
+def one_history(run, case, name, sn, U, Ug, m, j, later, rng, interfere=None):
     """Deliver q right after the j-th guess of pop m (a Markov level), resume, then apply `later` further cuts (guess counts within each
     resumed run).  Where each run really stopped is read off its recorded stream, so a quit that is honoured a little later is not an error."""
     levels = {p[0]: p[2] for p in U if p[0][0] == ('M',)}
@@ -84,6 +84,20 @@ def one_history(run, case, name, sn, U, Ug, m, j, later, rng):
                 return
             if (kind == 'first' and j and ev[3] == m and ev[4] == j) or (kind == 'later' and isinstance(cut, int) and ev[1] == cut):
                 fired['x'] = ctx.deliver('q')
+        if ci == 1 and interfere is not None:
+            # another session on the same ruleset, in the same directory, with a name that differs only in its last letter, is quit inside a Markov
+            # level between this session's quit and its resume: the two sessions have nothing to do with each other
+            m2, j2 = interfere
+            sib = sn[:-1] + ('s' if not sn.endswith('s') else 'a')
+            f2 = {}
+            def trig2(ev, ctx, f2=f2):
+                if 'x' not in f2 and ev[0] == 'GUESS' and ev[3] == m2 and ev[4] == j2:
+                    f2['x'] = ctx.deliver('q')
+            try:
+                session.run_main(['-r', name, '-s', sib], trigger=trig2)
+                run.ev('sibling_sessions_interleaved')
+            finally:
+                session.drop_session(sib)
         r = session.run_main(['-r', name, '-s', sn] + (['--load'] if ci else []), trigger=trig)
         run.ev('main_runs')
         if ci:
@@ -174,7 +188,7 @@ def check_case(run, case, tier='quick'):
     import random
     rng = random.Random(case['hseed'])
     name, path = gstream.materialise(case['spec'], 'c15')
-    sn = session.new_session_name('c15')
+    sn = session.new_session_name('c15') + rng.choice(['a', 's', 'v', '.s', 'x', '_1'])       # session names are free text: also ones ending in the letters of '.sav'
     try:
         Ures = session.run_main(['-r', name, '-s', sn])
         if Ures.exc is not None or not Ures.pops:
@@ -207,7 +221,12 @@ def check_case(run, case, tier='quick'):
                 later = []
                 for c in range(ncyc):
                     later.append(rng.randint(1, max(1, min(12, len(Ug)))) if rng.random() < 0.7 else [rng.choice(['pop', 'create', 'create']), rng.randint(1, 3)])
-                ok = one_history(run, case, name, sn, U, Ug, m, j, later, rng)
+                interfere = None
+                if rng.random() < 0.25:
+                    m2 = rng.choice(mk)
+                    if len(U[m2][2]) >= 2:
+                        interfere = (m2, rng.randint(1, len(U[m2][2]) - 1))
+                ok = one_history(run, case, name, sn, U, Ug, m, j, later, rng, interfere=interfere)
                 nt = 0 < j < n
                 if j == 0:
                     run.ev('histories_quit_before_first_guess_of_the_level')
